@@ -37,6 +37,9 @@ class _Tok:
     def __repr__(self):
         return f"<{self.name}>"
 
+    def __pyvc_copy__(self):
+        return self
+
 
 @obligation(P, "reuse.guard", functions=[R + "affine_between", R + "_round"])
 def guard(H):
@@ -169,8 +172,12 @@ def round_contract(H):
         return r
 
     H.override(svg_reuse._try_affine, st_try)
+    H.override(svg_reuse._apply_affine, lambda I, a, s: _Tok("applied"))
     s1, s2 = _Tok("s1"), _Tok("s2")
-    res = H.call(_round, A, s1, s2, tol)
+    res, e = H.catch(_round, A, s1, s2, tol)
+    H.prove(e is None, "round.no_exception", detail=repr(e))
+    if e is not None:
+        return
     alts = [H.close(tuple(res), tuple(A))] + [And(H.close(tuple(res), tuple(aff)), r) for (aff, a, b, t, r) in tries if a is s1 and b is s2 and t is tol]
     H.prove(Or(*alts), "round.result_is_verified_rounding_or_the_input")
 
@@ -352,3 +359,48 @@ def drift_bound(H):
     H.prove(And(nx <= s + (k + 1) * tol, -nx <= s + (k + 1) * tol, ny <= s + (k + 1) * tol, -ny <= s + (k + 1) * tol), "drift.absolute_difference_grows_by_at_most_tol_per_command")
     # and the canary: the stronger statement (no growth) is NOT provable - guards the lemma against vacuity
     H.canary(And(nx <= s + k * tol, -nx <= s + k * tol), "drift.canary_no_growth_is_refutable")
+
+
+@obligation(P, "reuse.try_affine", functions=[R + "_try_affine"])
+def try_affine_contract(H):
+    """_try_affine(affine, s1, s2, tolerance) is exactly `apply affine to s1, compare with s2 at the caller's tolerance`:
+    the tolerance reaches almost_equals unchanged (not scaled by the candidate, not relaxed), the comparison is against s2
+    itself, and the answer is almost_equals' answer.  reuse.guard uses _try_affine through this contract."""
+    if H.mode == "concrete":
+        s1, s2 = SVGPath(d="M0,0 l4,0 l0,3 z"), SVGPath(d="M0,0 l32,0 l0,24.05 z")
+        big = Affine2D(8, 0, 0, 8, 0, 0)
+        H.prove(_try_affine(big, s1, s2, 0.1, "x") is True and _try_affine(big, s1, s2, 0.01, "x") is False, "try_affine.tolerance_not_scaled_by_the_candidate")
+        return
+    tol = H.real("tol")
+    A = Affine2D(*H.reals("a", 6))
+    s1, s2, applied = _Tok("s1"), _Tok("s2"), _Tok("A(s1)")
+    calls = []
+    verdict = H.bool("verdict")
+
+    def st_apply(I, affine, s):
+        calls.append(("apply", affine, s))
+        return applied
+
+    def st_eq(I, a, b, t):
+        calls.append(("almost_equals", a, b, t))
+        return verdict
+
+    class _ShapeTok(_Tok):
+        def almost_equals(self, other, t):
+            return st_eq(None, self, other, t)
+
+    applied = _ShapeTok("A(s1)")
+    H.override(svg_reuse._apply_affine, st_apply)
+    H.override(SVGShape.almost_equals, st_eq)
+    res, e = H.catch(_try_affine, A, s1, s2, tol, "contract")
+    H.prove(e is None, "try_affine.no_exception", detail=repr(e))
+    if e is not None:
+        return
+    ap = [c for c in calls if c[0] == "apply"]
+    eq = [c for c in calls if c[0] == "almost_equals"]
+    H.prove(len(ap) == 1 and ap[0][2] is s1 and H.close(tuple(ap[0][1]), tuple(A)), "try_affine.candidate_applied_to_the_first_shape")
+    ok = len(eq) == 1 and eq[0][1] is applied and eq[0][2] is s2
+    H.prove(ok, "try_affine.image_compared_with_the_second_shape")
+    if ok:
+        H.prove(H.close(eq[0][3], tol), "try_affine.tolerance_not_scaled_by_the_candidate")
+        H.prove(H.interp.eq(res, verdict) if not isinstance(res, bool) else False, "try_affine.answer_is_the_comparison")
